@@ -618,7 +618,7 @@ fn read_code<C: CodeVisitor>(
 
 						if low > high { bail!("in tableswitch `low` must be lower or equal to `high`, it's low={low:?} and high={high:?}"); }
 
-						let n = (high - low + 1) as u32; // always >= 1
+						let n = high as i64 - low as i64 + 1; // always >= 1, computed in i64 as it can be 2^32
 
 						for _ in 0..n {
 							labels.create(r.read_i32_as_branch_target_label(opcode_pos)?)?;
@@ -1026,9 +1026,10 @@ fn read_code<C: CodeVisitor>(
 
 				if low > high { bail!("in tableswitch `low` must be lower or equal to `high`, it's low={low:?} and high={high:?}"); }
 
-				let n = (high - low + 1) as u32; // always >= 1
+				let n = high as i64 - low as i64 + 1; // always >= 1, computed in i64 as it can be 2^32
 
-				let mut table = Vec::with_capacity(n as usize);
+				// every entry takes four bytes of the bytecode, don't trust `n` for the allocation
+				let mut table = Vec::with_capacity((n as usize).min(bytecode.len() / 4));
 				for _ in 0..n {
 					let entry = labels.try_get(r.read_i32_as_branch_target_label(opcode_pos)?)?;
 					table.push(entry);
@@ -1045,7 +1046,8 @@ fn read_code<C: CodeVisitor>(
 				if n < 0 { bail!("in lookupswitch the `npairs` must be positive, it's npairs={n:?}"); }
 				let n = n as u32;
 
-				let mut pairs = Vec::with_capacity(n as usize);
+				// every pair takes eight bytes of the bytecode, don't trust `n` for the allocation
+				let mut pairs = Vec::with_capacity((n as usize).min(bytecode.len() / 8));
 				for _ in 0..n {
 					let key = r.read_i32()?;
 					let value = labels.try_get(r.read_i32_as_branch_target_label(opcode_pos)?)?;
